@@ -19,6 +19,10 @@
 (*                     fixed point: m_fix, res_fix, chi2map_fix            *)
 (*   chi2_fix, rchi2_fix, nn_fix, ll_fix, fom_fix   round(value*LogScale)  *)
 (*   same           all outputs bit-identical to the junk = 0 run          *)
+(*   scale          the unit exponent k: the real arrays and the sky level *)
+(*                  are the integers d, m, 2^e, sky times 2^k (alpha       *)
+(*                  divides by 2^k, exactly); only the noise normalization *)
+(*                  depends on it, by 2 k n ln 2                           *)
 (*   hist, step     dataset history of the fit: hist = "none", or the kind *)
 (*                  of history with step = 0 for the earlier fit (judged   *)
 (*                  against ITS arrays) and step = 1 for the fit after it  *)
@@ -62,7 +66,7 @@ ScalarClauses(r) ==
     LET n == Len(r.u) IN
     IF ~ (InRange(r.chi2_fix) /\ InRange(r.rchi2_fix) /\ InRange(r.nn_fix) /\ InRange(r.ll_fix) /\ InRange(r.fom_fix))
     THEN << "statistics-finite-and-in-range" >>
-    ELSE Cl("noise-normalization-sums-log-2pi-sigma2-over-unmasked-pixels", 2 * Abs(r.nn_fix - NoiseNormFix(r.e)) <= n + 2)
+    ELSE Cl("noise-normalization-sums-log-2pi-sigma2-over-unmasked-pixels", 2 * Abs(r.nn_fix - NoiseNormFixAt(r.e, r.scale)) <= n + 6)
       \o Cl("log-likelihood-is-minus-half-chi-squared-plus-normalization", Abs(2 * r.ll_fix + r.chi2_fix + r.nn_fix) <= 2)
       \o Cl("reduced-chi-squared-is-chi-squared-per-unmasked-pixel", 2 * Abs(r.rchi2_fix * n - r.chi2_fix) <= n + 2)
       \o Cl("masked-values-never-matter", r.same)
@@ -137,6 +141,7 @@ InvClauses(r) ==
 WellFormed(r) == /\ Len(r.d) = Len(r.u) /\ Len(r.e) = Len(r.u) /\ Len(r.u) > 0
                  /\ \A k \in DOMAIN r.e : r.e[k] \in DOMAIN LogTable
                  /\ r.mode \in {"slim", "native"} /\ r.mk \in {"int", "real"}
+                 /\ r.scale >= -60 /\ r.scale <= 60
                  /\ (r.mk = "int" => Len(r.m) = Len(r.u))
 
 Clauses(r) ==
@@ -159,6 +164,9 @@ Sig(r, f) ==
     IF r.api = "rff" THEN "residual_flux_fraction_map" \o AfterHistory(r)
     ELSE f[1] \o ":" \o r.mode
          \o (IF r.hasinv /\ "inv" \in DOMAIN r THEN (IF AnyReg(r.inv.objs) /\ ~ AllReg(r.inv.objs) THEN ":MixedRegularization" ELSE ":inversion") ELSE "")
+         \o (IF r.hasinv /\ "inv" \in DOMAIN r /\ "rid" \in DOMAIN r.inv
+                /\ (\E a, b \in DOMAIN r.inv.rid : a # b /\ r.inv.rid[a] # 0 /\ r.inv.rid[a] = r.inv.rid[b])
+             THEN ":SharedRegularization" ELSE "")
          \o AfterHistory(r)
 
 Want(r) ==
@@ -166,7 +174,7 @@ Want(r) ==
     THEN [rff_num |-> Residual(r.d, r.m, r.sky), rff_den |-> DataOf(r.d, r.sky), rff_unit_den |-> RffDen]
     ELSE IF r.api = "fit" /\ WellFormed(r) /\ r.mk = "int"
     THEN LET ref == SlimEval(r.d, r.m, r.e, r.sky) IN
-         [res |-> ref.res, nres2 |-> ref.nres2, chi2map4 |-> ref.chi2map4, chi2q |-> ref.chi2q, nn_fix |-> ref.nn,
+         [res |-> ref.res, nres2 |-> ref.nres2, chi2map4 |-> ref.chi2map4, chi2q |-> ref.chi2q, nn_fix |-> NoiseNormFixAt(r.e, r.scale),
           sn2 |-> ref.sn2]
          @@ (IF r.hasinv /\ r.raised = "" /\ r.inv.lat /\ Len(RegIdx(r.inv.objs)) <= 4
                 /\ IsMatrix(r.inv.FH, TotalP(r.inv.objs), TotalP(r.inv.objs)) /\ IsMatrix(r.inv.H, TotalP(r.inv.objs), TotalP(r.inv.objs))
